@@ -326,9 +326,31 @@ func (o OracleC14) After(x *Exec, op *Op, res *Res) {
 				}
 			}
 		}
+	case KUpdate:
+		// the decay clock: when governance configures decay while none was scheduled (previous
+		// rate 1 or previous interval 0) the clock starts at the block time of the update —
+		// "after n whole change intervals" counts from there; otherwise the running clock is kept
+		if !res.OK {
+			return
+		}
+		a, ok := pre.Assets[op.Denom]
+		pa, ok2 := post.Assets[op.Denom]
+		if !ok || !ok2 {
+			return
+		}
+		changed := !pa.RewardChangeRate.Equal(a.RewardChangeRate) || pa.RewardChangeInterval != a.RewardChangeInterval
+		idle := a.RewardChangeRate.Equal(math.LegacyOneDec()) || a.RewardChangeInterval == 0
+		want := a.LastRewardChangeTime
+		if changed && idle {
+			want = pre.Time
+			x.Label("c14:decay-configured-on-idle-asset")
+		}
+		if !pa.LastRewardChangeTime.Equal(want) {
+			x.Fail("C14", "clock", "update of %s (decay %s/%s -> %s/%s): decay clock is %s, expected %s", op.Denom, a.RewardChangeRate, a.RewardChangeInterval, pa.RewardChangeRate, pa.RewardChangeInterval, pa.LastRewardChangeTime, want)
+		}
 	default:
 		// only governance and end-of-block may change a weight or the decay clock
-		if op.K == KUpdate || op.K == KCreate || op.K == KDelete || op.K == KExportImp {
+		if op.K == KCreate || op.K == KDelete || op.K == KExportImp {
 			return
 		}
 		for _, dn := range pre.AssetOrder {
